@@ -541,6 +541,26 @@ fn mode_oracle(ctx: &mut Ctx, args: &Args, rng: &mut Rng, shard: (u64, u64)) {
             ctx.rep.extra.insert("f32_midpoint_range_completed".into(), format!("{}", done));
         }
     }
+    // systematic sweep first: every binade of each format x {midpoint, exact value} x all seven variants
+    // (random fraction, random layout), sharded - so that no binade depends on luck
+    for &fmt in &fmts {
+        let emax = (1u64 << fmt.exp_bits) - 2;
+        let mut e = shard.0;
+        while e <= emax {
+            let bits = e << fmt.mant_bits | (rng.next() & fmt.frac_mask());
+            for mid in [true, false] {
+                for which in 0..7u64 {
+                    let (c, _) = gen::g1_for(rng, fmt, bits, mid, which);
+                    if ctx.prop == "C06" && c.sig_digits() < 20 {
+                        continue;
+                    }
+                    ctx.judge(fmt, &c);
+                    ctx.rep.count("sweep.all_binades");
+                }
+            }
+            e += shard.1;
+        }
+    }
     let mut i = 0u64;
     while ctx.rep.evals < max {
         if i % 64 == 0 && ctx.rep.out_of_time() {
